@@ -140,6 +140,33 @@ def _has_member(base: type, key: str) -> bool:
     return any(key in vars(klass) for klass in base.__mro__)
 
 
+def _is_reused_from_ancestor(
+    bases: List[type], key: str, func: Callable[..., Any]
+) -> bool:
+    """
+    Check whether ``func`` is the very member (or property accessor) of one of the ancestors at ``key``.
+
+    Such a function is re-used as-is in the new class (*e.g.*, ``some_func = Base.some_func``, or
+    the getter which ``@Base.some_prop.setter`` keeps). It already carries all its contracts and is shared with
+    the ancestor, so the contracts must neither be merged with themselves nor changed for the ancestor.
+    """
+    for base in bases:
+        for klass in base.__mro__:
+            member = klass.__dict__.get(key, None)
+            if member is func:
+                return True
+
+            if isinstance(member, (staticmethod, classmethod)) and member.__func__ is func:
+                return True
+
+            if isinstance(member, property) and (
+                member.fget is func or member.fset is func or member.fdel is func
+            ):
+                return True
+
+    return False
+
+
 def _decorate_namespace_function(
     bases: List[type], namespace: MutableMapping[str, Any], key: str
 ) -> None:
@@ -154,6 +181,9 @@ def _decorate_namespace_function(
         func = value.__func__  # type: ignore
     else:
         raise NotImplementedError("Unexpected value for a function: {}".format(value))
+
+    if _is_reused_from_ancestor(bases=bases, key=key, func=func):
+        return
 
     # Collect preconditions and postconditions of the function
     preconditions = []  # type: List[List[Contract]]
@@ -261,6 +291,9 @@ def _decorate_namespace_property(
         func = cast(Callable[..., Any], func)
 
         if func is None:
+            continue
+
+        if _is_reused_from_ancestor(bases=bases, key=key, func=func):
             continue
 
         # Collect the preconditions and postconditions from bases
